@@ -157,6 +157,8 @@ _NP_FUNCS = {
     "ravel": lambda a, order="C": _arr(a).ravel(order=_order(order)),
     "concatenate": lambda seq, axis=0: np.concatenate([_arr(x) for x in seq], axis=axis),
     "stack": lambda seq, axis=0: np.stack([_arr(x) for x in seq], axis=axis),
+    "hstack": lambda seq: np.hstack([x if isinstance(x, np.ndarray) else _arr(x) for x in seq]),
+    "vstack": lambda seq: np.vstack([x if isinstance(x, np.ndarray) else _arr(x) for x in seq]),
     "diag": lambda a: np.diag(_arr(a)),
     "swapaxes": lambda a, i, j: np.swapaxes(_arr(a), i, j),
     "cross": lambda a, b: _cross(_arr(a), _arr(b)),
@@ -372,6 +374,8 @@ class SymEval:
         if isinstance(n.value, ast.Name) and n.value.id in self.np_names:
             if n.attr == "newaxis":
                 return None
+            if n.attr in ("float32", "float64", "int32", "int64", "float16", "uint8", "bool_"):
+                return getattr(np, n.attr)  # dtype objects (only ever passed on as dtype arguments)
             raise NotSymbolic(f"numpy attribute {n.attr} used as a value")
         v = self.eval(n.value)
         if isinstance(v, np.ndarray):
